@@ -298,8 +298,10 @@ Fixpoint run_tests (sys : system) (ts : list test) (c : ctx) : list (list Z) * c
       (p :: ps, c2)
   end.
 
-(* run_contract: ctx.frontier_states[0] = [setup_ex]; ctx.visited.add(get_state_id(setup_ex)) *)
-Definition init_ctx (sys : system) (s0 : Z) : ctx := mkCtx [[s0]] [sid sys s0].
+(* run_contract: ctx.frontier_states[0] = [setup_ex]; whether the id of the setUp state is registered in
+   ctx.visited is what the code does (Gen/GenFrontierFlow.v, regenerated): it is not *)
+Definition init_visited (sd : Z -> Z) (s0 : Z) : list Z := if setup_state_visited then [sd s0] else [].
+Definition init_ctx (sys : system) (s0 : Z) : ctx := mkCtx [[s0]] (init_visited (sid sys) s0).
 
 Definition run_contract (sys : system) (s0 : Z) (ts : list test) : list (list Z) :=
   fst (run_tests sys ts (init_ctx sys s0)).
@@ -348,7 +350,7 @@ Section Configured.
     end.
 
   Definition run_contract_c (s0 : Z) (ts : list ctest) : list (list Z) :=
-    fst (run_tests_c ts (mkCtx [[s0]] [sd s0])).
+    fst (run_tests_c ts (mkCtx [[s0]] (init_visited sd s0))).
 End Configured.
 
 (* ================================================================ Part N: naming *)
